@@ -18,7 +18,7 @@ ASSUMPTIONS = ['closed form x=(nu+h)cos(lat)cos(lon), y=(nu+h)cos(lat)sin(lon), 
                'evaluated in float64 with exact quadrant handling (checked against mpmath on a sample each shard)']
 N = {'quick': 4000, 'thorough': 60000}
 SHARDS = {'quick': 16, 'thorough': 32}
-REQUIRED_COUNTERS = ['branch:llh2xyz-equator-test', 'forward_judged', 'inverse_judged', 'equator_exact', 'pole_exact', 'near_axis']
+REQUIRED_COUNTERS = ['alias_sequences', 'branch:llh2xyz-equator-test', 'forward_judged', 'inverse_judged', 'equator_exact', 'pole_exact', 'near_axis']
 
 
 def plan(tier, seed):
@@ -227,6 +227,14 @@ def run_shard(spec, ctx):
             if i < 2:
                 ctx.sample(case)
             judge(ns, ctx, case)
+            if rnd.random() < 0.3:
+                # the same point on another ellipsoid (same 1/f and other a, other 1/f, another shipped one)
+                c2 = dict(case)
+                c2['ell'] = tmwork.alias_ell(rnd, case['ell'])
+                a2 = c2['ell'][0] if not isinstance(c2['ell'], str) else 6378137.0
+                if 6.3e6 <= a2 <= 6.4e6:
+                    judge(ns, ctx, c2)
+                    ctx.count('alias_sequences')
     finally:
         reach.stop()
     ctx.info['lines_reached'] = reach.summary()
